@@ -4,7 +4,8 @@
            <root-name-hex> <n> <name1-hex> <content1-hex> ...   ("-" = empty)
    stdout: one line per scenario in the format documented in harness/run_manifest.cc;
            `model` = eval_manifest (the model of the code), `spec` = spec_manifest (the reference
-           evaluator written from doc/manual.asciidoc).  Include fuel 8 unless given.
+           evaluator written from doc/manual.asciidoc).  Include fuel 201 unless given (the code's own limit of 200 nested
+           files stops first, so the fuel is never what ends the model's recursion).
    Helpers copied from extract/model_run.ml, printer from coq/Manifest/driver_snippet.ml. *)
 open Manifestmodel
 
@@ -58,7 +59,7 @@ let perr_name = function
   | E_multiple_rules -> "multiple_rules" | E_output_twice -> "output_twice"
   | E_dyndep_not_input -> "dyndep_not_input" | E_bad_escape -> "bad_escape"
   | E_unexpected_eof -> "unexpected_eof" | E_newline_version -> "newline_version"
-  | E_loading -> "loading" | E_fatal_cycle -> "cycle" | E_fatal_version -> "version"
+  | E_loading -> "loading" | E_include_depth -> "include_depth" | E_fatal_cycle -> "cycle" | E_fatal_version -> "version"
   | E_include_fuel -> "include_fuel" | E_overrun -> "overrun" | E_loop_fuel -> "loop_fuel"
   | E_lookup_fuel -> "lookup_fuel"
 
@@ -200,7 +201,7 @@ let facts_line (include_fuel : int) (l : string) : string =
   | _ -> "BADLINE"
 
 let () =
-  let fuel = if Array.length Sys.argv > 2 then int_of_string Sys.argv.(2) else 8 in
+  let fuel = if Array.length Sys.argv > 2 then int_of_string Sys.argv.(2) else 201 in
   match (if Array.length Sys.argv > 1 then Sys.argv.(1) else "") with
   | "model" | "manifest" -> each_line (manifest_line fuel)
   | "spec" | "manifest_spec" -> each_line (manifest_spec_line fuel)
